@@ -21,7 +21,13 @@ import PPLV.Lin.Model
   collective wrapping becomes too complex at a variable `x` (as written, `x` itself is then neither
   translated nor given the full range; the repaired code sends it to `set_full_range`).  The second
   component of the result is a ghost flag: that unrepaired branch was executed.
-* `ivWrap` — a small model of `Interval::wrap_assign` over rational boundaries.
+  `allZeroesAsRead` is `expression().all_zeroes(vars)` as `wrap_assign_ind` executes it (with `vars`
+  beyond the space dimension of `*cs_p`, where it reads the ε coefficient of strict rows).  The model is
+  validated against the real template on every run: the harness instantiates
+  `Implementation::wrap_assign` with a PSET recording symbolic terms, the driver runs this model over the
+  same symbolic domain and compares the final terms (`Driver/Wrap.lean`, `judgeTrace`).
+* `ivWrap` — a small model of `Interval::wrap_assign` over rational boundaries; `boxWrap` — the branch
+  of `Box::wrap_assign` without guard (both compared with the real results by the driver, `ivCheck`).
 * `containsIntegerPointRef` — reference for `contains_integer_point()` by bounded enumeration inside
   bounds computed (and proved) by K1.
 -/
@@ -365,8 +371,9 @@ def modR (r : Repn) (w : Nat) (x : Rat) : Rat :=
   let p : Rat := (pow2 w : Int)
   x - (((x - m) / p).floor : Int) * p
 
-/-- `Interval::wrap_assign(w, r, refinement)`; `strictTest = true` is the comparison `u > lower()`
-    as written, `false` the repaired `u >= lower()` -/
+/-- `Interval::wrap_assign(w, r, refinement)`; `strictTest = false` is the comparison `u >= lower()` of
+    the code (since the fix of defect 12, /repo commit 7a40b81), `true` the comparison `u > lower()`
+    before that fix -/
 def ivWrap (strictTest : Bool) (I : Itv) (w : Nat) (r : Repn) (ref : Itv) : Itv :=
   if I.isEmpty then I
   else match I.lo, I.hi with
@@ -384,6 +391,52 @@ def ivWrap (strictTest : Bool) (I : Itv) (w : Nat) (r : Repn) (ref : Itv) : Itv 
 /-- the quadrant interval `[min_value, max_value]` -/
 def rangeItv (r : Repn) (w : Nat) : Itv :=
   ⟨some (((minValue r w : Int) : Rat), false), some (((maxValue r w : Int) : Rat), false)⟩
+
+/-! ## `Box::wrap_assign` without guard (`cs_p == nullptr`) -/
+
+/-- `J.contains(I)` on boundaries: the lower boundary `a` of `J` admits everything the lower boundary
+    `b` of `I` admits -/
+def Itv.loLe : Option (Rat × Bool) → Option (Rat × Bool) → Bool
+  | none, _ => true
+  | some _, none => false
+  | some (a, ao), some (b, bo) => decide (a < b) || (decide (a = b) && (!ao || bo))
+def Itv.hiGe : Option (Rat × Bool) → Option (Rat × Bool) → Bool
+  | none, _ => true
+  | some _, none => false
+  | some (a, ao), some (b, bo) => decide (b < a) || (decide (a = b) && (!ao || bo))
+def Itv.contains (J I : Itv) : Bool := I.isEmpty || (Itv.loLe J.lo I.lo && Itv.hiGe J.hi I.hi)
+
+/-- `rational_quadrant_itv`: `[min_value, max_value + 1)`; an interval type that cannot store open
+    boundaries (`storeOpen = false`, e.g. `Z_Box`) keeps the LESS_THAN bound as `<= max_value + 1` -/
+def rationalQuadrant (storeOpen : Bool) (r : Repn) (w : Nat) : Itv :=
+  ⟨some (((minValue r w : Int) : Rat), false), some (((maxValue r w + 1 : Int) : Rat), storeOpen)⟩
+
+def mapIdxFrom (f : Nat → Itv → Itv) : Nat → List Itv → List Itv
+  | _, [] => []
+  | i, I :: Is => f i I :: mapIdxFrom f (i + 1) Is
+
+/-- the three loops of the `cs_p == nullptr` branch of `Box::wrap_assign` (non-empty box) -/
+def boxWrap (strictTest storeOpen : Bool) (cfg : WrapCfg) (B : List Itv) : List Itv :=
+  mapIdxFrom (fun i I =>
+    if i ∈ cfg.vars then
+      match cfg.o with
+      | .wraps => ivWrap strictTest I cfg.w cfg.r (rangeItv cfg.r cfg.w)
+      | .undefined => if (rationalQuadrant storeOpen cfg.r cfg.w).contains I then I else rangeItv cfg.r cfg.w
+      | .impossible => I.inter (rangeItv cfg.r cfg.w)
+    else I) 0 B
+
+/-- membership in a box whose first interval is for dimension `i` -/
+def boxMemFrom : Nat → List Itv → Pt → Prop
+  | _, [], _ => True
+  | i, I :: Is, v => I.mem (v i) ∧ boxMemFrom (i + 1) Is v
+instance boxMemFromDec : (i : Nat) → (B : List Itv) → (v : Pt) → Decidable (boxMemFrom i B v)
+  | _, [], _ => isTrue trivial
+  | i, I :: Is, v => by
+    unfold boxMemFrom
+    have := boxMemFromDec (i + 1) Is v
+    exact inferInstance
+def boxMem (B : List Itv) (v : Pt) : Prop := boxMemFrom 0 B v
+instance (B : List Itv) (v : Pt) : Decidable (boxMem B v) := by unfold boxMem; exact inferInstance
 
 /-! ## reference for `contains_integer_point()` -/
 
